@@ -36,6 +36,12 @@ def ite(test, a, b):
         return ite(_and(test, a.test), a.body, b)
     if isinstance(test, ast.UnaryOp) and isinstance(test.op, ast.Not):
         return ite(test.operand, b, a)
+    # `not a or not b`  ==  not (a and b): the positive test with the branches exchanged
+    if isinstance(test, ast.BoolOp) and all(isinstance(v, ast.UnaryOp) and isinstance(v.op, ast.Not)
+                                            for v in test.values):
+        pos = ast.BoolOp(op=ast.And() if isinstance(test.op, ast.Or) else ast.Or(),
+                         values=[v.operand for v in test.values])
+        return ite(pos, b, a)
     return ast.IfExp(test=test, body=a, orelse=b)
 
 
